@@ -45,6 +45,10 @@ Proof.
   destruct m; destruct n; simpl; try reflexivity; try apply Hf. apply IH. exact Hf.
 Qed.
 
+Definition geo (x : block) : N * N * N := (b_idx x, b_off x, b_len x).
+Lemma geo_idx : forall y x, geo y = geo x -> b_idx y = b_idx x.
+Proof. unfold geo. intros y x E. inversion E. reflexivity. Qed.
+
 Section Proofs.
 Variable H : list N -> list N.
 Variable expected : N -> list N.
@@ -64,21 +68,21 @@ Proof.
   apply andb_true_iff in E. destruct E as [E1 E2]. apply N.eqb_eq in E1. apply N.eqb_eq in E2. auto.
 Qed.
 
-Lemma in_upd_block : forall l i b f y, (forall x, b_idx (f x) = b_idx x) ->
-  In y (upd_block l i b f) -> exists x, In x l /\ b_idx y = b_idx x.
+Lemma in_upd_block : forall l i b f y, (forall x, geo (f x) = geo x) ->
+  In y (upd_block l i b f) -> exists x, In x l /\ geo y = geo x.
 Proof.
   intros l i b f y Hf Hin. unfold upd_block in Hin. apply in_map_iff in Hin. destruct Hin as [x [E Hx]].
   exists x. split; [exact Hx|]. destruct (is_block i b x); subst; [apply Hf | reflexivity].
 Qed.
 
-Lemma in_upd_piece_blocks : forall l i f y, (forall x, b_idx (f x) = b_idx x) ->
-  In y (upd_piece_blocks l i f) -> exists x, In x l /\ b_idx y = b_idx x.
+Lemma in_upd_piece_blocks : forall l i f y, (forall x, geo (f x) = geo x) ->
+  In y (upd_piece_blocks l i f) -> exists x, In x l /\ geo y = geo x.
 Proof.
   intros l i f y Hf Hin. unfold upd_piece_blocks in Hin. apply in_map_iff in Hin. destruct Hin as [x [E Hx]].
   exists x. split; [exact Hx|]. destruct (b_idx x =? i); subst; [apply Hf | reflexivity].
 Qed.
 
-Lemma erase_tr_idx : forall p x, b_idx (erase_tr p x) = b_idx x.
+Lemma erase_tr_idx : forall p x, geo (erase_tr p x) = geo x.
 Proof.
   intros p x. unfold erase_tr. destruct (b_leader x) as [q|]; [|reflexivity].
   destruct (q =? p); [|reflexivity].
@@ -86,10 +90,10 @@ Proof.
   destruct (max_pos_tr _ None); reflexivity.
 Qed.
 
-Lemma complete_block_idx : forall x, b_idx (complete_block x) = b_idx x.
+Lemma complete_block_idx : forall x, geo (complete_block x) = geo x.
 Proof. reflexivity. Qed.
 
-Lemma retry_blocks_idx : forall i bl pc y, In y (fst (retry_blocks i bl pc)) -> exists x, In x bl /\ b_idx y = b_idx x.
+Lemma retry_blocks_idx : forall i bl pc y, In y (fst (retry_blocks i bl pc)) -> exists x, In x bl /\ geo y = geo x.
 Proof.
   intros i bl. induction bl as [|x bl IH]; intros pc y Hin; simpl in Hin; [contradiction|].
   destruct (b_idx x =? i).
@@ -165,7 +169,7 @@ Proof.
   destruct (t_pos t =? b_len x); [|repeat split]. destruct (is_leader_t t); repeat split.
 Qed.
 
-Lemma after_data_blocks : forall s p i b y, In y (blocks (after_data s p i b)) -> exists x, In x (blocks s) /\ b_idx y = b_idx x.
+Lemma after_data_blocks : forall s p i b y, In y (blocks (after_data s p i b)) -> exists x, In x (blocks s) /\ geo y = geo x.
 Proof.
   intros s p i b y. unfold after_data. destruct (find_block s i b) as [x|]; [|intro; exists y; auto].
   destruct (find_tr p (b_trans x)) as [t|]; [|intro; exists y; auto].
@@ -181,7 +185,7 @@ Lemma data_valid_spec : forall s p i b d s', data_valid s p i b d = Some s' ->
   (exists x, find_block s i b = Some x) /\
   completed s' = completed s /\ hashing s' = hashing s /\ pmark s' = pmark s /\ haves s' = haves s /\ done s' = done s /\
   attempts s' = attempts s /\ conns s' = conns s /\
-  (forall y, In y (blocks s') -> exists x, In x (blocks s) /\ b_idx y = b_idx x) /\
+  (forall y, In y (blocks s') -> exists x, In x (blocks s) /\ geo y = geo x) /\
   (forall j, length (piece s' j) = length (piece s j)).
 Proof.
   intros s p i b d s' E. unfold data_valid in E.
@@ -231,7 +235,7 @@ Lemma hash_failed_spec : forall s i,
   completed (hash_failed s i) = completed s /\ hashing (hash_failed s i) = hashing s /\ pmark (hash_failed s i) = pmark s /\
   haves (hash_failed s i) = haves s /\ done (hash_failed s i) = done s /\ conns (hash_failed s i) = conns s /\
   (forall j, listed (hash_failed s i) j = listed s j) /\
-  (forall y, In y (blocks (hash_failed s i)) -> exists x, In x (blocks s) /\ b_idx y = b_idx x) /\
+  (forall y, In y (blocks (hash_failed s i)) -> exists x, In x (blocks s) /\ geo y = geo x) /\
   (forall j, length (piece (hash_failed s i) j) = length (piece s j)).
 Proof.
   intros s i. unfold Model.hash_failed. destruct (attempt_of s i =? 0).
@@ -276,7 +280,7 @@ Qed.
 Lemma disc_spec : forall s p,
   store (disc s p) = store s /\ completed (disc s p) = completed s /\ attempts (disc s p) = attempts s /\
   hashing (disc s p) = hashing s /\ pmark (disc s p) = pmark s /\ haves (disc s p) = haves s /\ done (disc s p) = done s /\
-  (forall y, In y (blocks (disc s p)) -> exists x, In x (blocks s) /\ b_idx y = b_idx x).
+  (forall y, In y (blocks (disc s p)) -> exists x, In x (blocks s) /\ geo y = geo x).
 Proof.
   intros s p. unfold disc. simpl. repeat split; try reflexivity.
   intros y Hy. apply in_map_iff in Hy. destruct Hy as [x [E Hx]]. subst y. simpl.
@@ -284,6 +288,19 @@ Proof.
   - destruct (in_upd_block _ _ _ _ _ (erase_tr_idx p) Hx) as [x1 [A B]]. exists x1. auto.
   - exists x. auto.
   - exists x. auto.
+Qed.
+
+Lemma corrupt_spec : forall s p,
+  store (corrupt s p) = store s /\ completed (corrupt s p) = completed s /\ attempts (corrupt s p) = attempts s /\
+  hashing (corrupt s p) = hashing s /\ pmark (corrupt s p) = pmark s /\ haves (corrupt s p) = haves s /\ done (corrupt s p) = done s /\
+  (forall y, In y (blocks (corrupt s p)) -> exists x, In x (blocks s) /\ geo y = geo x).
+Proof.
+  intros s p. unfold corrupt.
+  match goal with |- context [disc ?S p] => set (s1 := S) end.
+  destruct ((max_failed <? failc_of s p + 1) && memN p (conns s)).
+  - destruct (disc_spec s1 p) as (D1 & D2 & D3 & D4 & D5 & D6 & D7 & D8).
+    rewrite D1, D2, D3, D4, D5, D6, D7. repeat split; auto.
+  - repeat split; auto. intros y Hy. exists y. auto.
 Qed.
 
 Lemma mk_blocks_from_idx : forall fuel i no off size y, In y (mk_blocks_from i no off size fuel) -> b_idx y = i.
@@ -334,12 +351,12 @@ Proof.
     + intros D j Hj. right. apply I7; assumption.
   - assert (NoMark : forall i, None = Some i -> H (piece s i) = expected i /\ listed s i = true /\ ~ In i (hashing s)) by (intros; discriminate).
     destruct e.
-    + (* EConn *) destruct (memN p (conns s)); [discriminate|]. inversion A; subst s'; clear A.
+    + (* EConn *) destruct (memN p (conns s) || (max_failed <? failc_of s p)); [discriminate|]. inversion A; subst s'; clear A.
       unfold Inv, idx_ok, listed, piece; simpl. repeat split; auto; try discriminate; try (intros; discriminate).
     + (* EDisc *) destruct (memN p (conns s)); inversion A; subst s'; clear A.
       * destruct (disc_spec s p) as (D1 & D2 & D3 & D4 & D5 & D6 & D7 & D8).
         unfold Inv, idx_ok, listed, piece. rewrite D1, D2, D3, D4, D5, D6, D7, PM. repeat split; auto; try discriminate; try (intros; discriminate).
-        intros x Hx. destruct (D8 x Hx) as [x1 [A1 A2]]. rewrite A2. apply I4. exact A1.
+        intros x Hx. destruct (D8 x Hx) as [x1 [A1 A2]]. rewrite (geo_idx _ _ A2). apply I4. exact A1.
       * unfold Inv. rewrite PM. repeat split; auto; try discriminate.
     + (* ENew *) destruct ((i <? npieces) && negb (listed s i) && negb (memN i (completed s))) eqn:G; [|discriminate].
       inversion A; subst s'; clear A. apply andb_true_iff in G. destruct G as [G G3]. apply andb_true_iff in G. destruct G as [G1 G2].
@@ -353,18 +370,18 @@ Proof.
     + (* EIns *) destruct (find_block s i b) as [x|]; [|discriminate].
       destruct (memN p (conns s) && negb (finished x) && negb (memN p (b_queued x)) && negb (has_tr p (b_trans x))); [|discriminate].
       inversion A; subst s'; clear A. unfold Inv, idx_ok, listed, piece; simpl. rewrite PM. repeat split; auto; try discriminate; try (intros; discriminate).
-      intros y Hy. apply in_upd_block in Hy; [|intro; reflexivity]; destruct Hy as [x1 [A1 A2]]. rewrite A2. apply I4. exact A1.
+      intros y Hy. apply in_upd_block in Hy; [|intro; reflexivity]; destruct Hy as [x1 [A1 A2]]. rewrite (geo_idx _ _ A2). apply I4. exact A1.
     + (* ERel *) destruct (find_block s i b) as [x|]; [|discriminate].
       destruct (memN p (b_queued x)); [|discriminate].
       inversion A; subst s'; clear A. unfold Inv, idx_ok, listed, piece; simpl. rewrite PM. repeat split; auto; try discriminate; try (intros; discriminate).
-      intros y Hy. apply in_upd_block in Hy; [|intro; reflexivity]; destruct Hy as [x1 [A1 A2]]. rewrite A2. apply I4. exact A1.
+      intros y Hy. apply in_upd_block in Hy; [|intro; reflexivity]; destruct Hy as [x1 [A1 A2]]. rewrite (geo_idx _ _ A2). apply I4. exact A1.
     + (* EPiece *) destruct (negb (memN p (conns s))); [discriminate|].
       destruct (get_cur s p); [discriminate|].
       destruct start.
       * destruct (find_block s i (off / bs)) as [x|]; [|discriminate].
         destruct ((b_off x =? off) && (b_len x =? len) && memN p (b_queued x) && negb (has_tr p (b_trans x))); [|discriminate].
         inversion A; subst s'; clear A. unfold Inv, idx_ok, listed, piece; simpl. rewrite PM. repeat split; auto; try discriminate; try (intros; discriminate).
-        intros y Hy. apply in_upd_block in Hy; [|intro; reflexivity]; destruct Hy as [x1 [A1 A2]]. rewrite A2. apply I4. exact A1.
+        intros y Hy. apply in_upd_block in Hy; [|intro; reflexivity]; destruct Hy as [x1 [A1 A2]]. rewrite (geo_idx _ _ A2). apply I4. exact A1.
       * destruct (len =? 0); inversion A; subst s'; clear A; unfold Inv, idx_ok, listed, piece; simpl; rewrite PM; repeat split; auto; try discriminate; try (intros; discriminate).
     + (* EData *) destruct (get_cur s p) as [[i b|pos len]|]; [| |discriminate].
       * destruct (data_valid_spec _ _ _ _ _ _ A) as (P1 & [x Fx] & P2 & P3 & P4 & P5 & P6 & P7 & P8 & P9 & P10).
@@ -376,7 +393,7 @@ Proof.
            ++ rewrite (I3 i Hj) in Li. discriminate.
            ++ rewrite (P1 j Hne). apply I1. exact Hj.
         -- intros j Hj. rewrite LL. apply I3. exact Hj.
-        -- intros y Hy. rewrite LL. destruct (P9 y Hy) as [x1 [A1 A2]]. rewrite A2. apply I4. exact A1.
+        -- intros y Hy. rewrite LL. destruct (P9 y Hy) as [x1 [A1 A2]]. rewrite (geo_idx _ _ A2). apply I4. exact A1.
         -- intros j Hj. rewrite LL. apply I5. exact Hj.
       * destruct ((lenN d =? 0) || (len - pos <? lenN d)); [discriminate|].
         destruct (pos + lenN d =? len); inversion A; subst s'; clear A; unfold Inv, idx_ok, listed, piece; simpl; rewrite PM; repeat split; auto; try discriminate; try (intros; discriminate).
@@ -405,7 +422,7 @@ Proof.
            ++ rewrite (I3 i Hj) in Li. discriminate.
            ++ rewrite (F1 j Hne). apply I1. exact Hj.
         -- intros j Hj. rewrite F8. apply I3. exact Hj.
-        -- intros y Hy. rewrite F8. destruct (F9 y Hy) as [x1 [A1 A2]]. rewrite A2. apply I4. exact A1.
+        -- intros y Hy. rewrite F8. destruct (F9 y Hy) as [x1 [A1 A2]]. rewrite (geo_idx _ _ A2). apply I4. exact A1.
         -- intros j Hj. rewrite F8. apply removeN_In in Hj. destruct Hj as [Hj _]. apply I5. exact Hj.
     + (* EHashCancel *) destruct (memN i (hashing s)); [|discriminate]. inversion A; subst s'; clear A.
       unfold Inv, idx_ok, listed, piece; simpl. rewrite PM. repeat split; auto; try discriminate; try (intros; discriminate).
@@ -420,6 +437,10 @@ Proof.
       unfold Inv, idx_ok, listed, piece; simpl. repeat split; auto; try discriminate; try (intros; discriminate).
       intros _ j Hj. eapply all_completed_spec; eassumption.
     + (* EProbe *) destruct (list_eqb (H (piece s i)) d); inversion A; subst s'. unfold Inv. rewrite PM. repeat split; auto; try discriminate.
+    + (* ECorrupt *) inversion A; subst s'; clear A.
+      destruct (corrupt_spec s p) as (D1 & D2 & D3 & D4 & D5 & D6 & D7 & D8).
+      unfold Inv, idx_ok, listed, piece. rewrite D1, D2, D3, D4, D5, D6, D7, PM. repeat split; auto; try discriminate; try (intros; discriminate).
+      intros x Hx. destruct (D8 x Hx) as [x1 [A1 A2]]. rewrite (geo_idx _ _ A2). apply I4. exact A1.
 Qed.
 
 Definition init_ok (st0 : list (list N)) (c0 : list N) : Prop :=
@@ -466,7 +487,7 @@ Proof.
   unfold Model.accept in A. destruct (pmark s) as [m|] eqn:PM.
   - destruct e; try discriminate. destruct (m =? i0); [|discriminate]. inversion A; subst s'. simpl. split; [reflexivity | right; exact Hc].
   - destruct e; try discriminate.
-    + destruct (memN p (conns s)); [discriminate|]. inversion A; subst s'. auto.
+    + destruct (memN p (conns s) || (max_failed <? failc_of s p)); [discriminate|]. inversion A; subst s'. auto.
     + destruct (memN p (conns s)); inversion A; subst s'; auto.
     + destruct ((i0 <? npieces) && negb (listed s i0) && negb (memN i0 (completed s))); [|discriminate]. inversion A; subst s'. auto.
     + destruct (find_block s i0 b); [|discriminate]. destruct (_ && _); [|discriminate]. inversion A; subst s'. auto.
@@ -492,6 +513,7 @@ Proof.
     + destruct (_ && _); [|discriminate]. inversion A; subst s'. auto.
     + destruct (_ && _); [|discriminate]. inversion A; subst s'. auto.
     + destruct (list_eqb _ _); inversion A; subst s'. auto.
+    + inversion A; subst s'. destruct (corrupt_spec s p) as (D1 & D2 & _). unfold piece. rewrite D1, D2. auto.
 Qed.
 
 Theorem have_and_done_only_completed : forall st0 c0 tr s,
@@ -511,7 +533,7 @@ Proof.
   intros s e s' j A. unfold Model.accept in A. destruct (pmark s) as [m|].
   - destruct e; try discriminate. destruct (m =? i); [|discriminate]. inversion A; subst s'. reflexivity.
   - destruct e; try discriminate.
-    + destruct (memN p (conns s)); [discriminate|]. inversion A; subst s'. reflexivity.
+    + destruct (memN p (conns s) || (max_failed <? failc_of s p)); [discriminate|]. inversion A; subst s'. reflexivity.
     + destruct (memN p (conns s)); inversion A; subst s'; [|reflexivity]. destruct (disc_spec s p) as (D1 & _). unfold piece. rewrite D1. reflexivity.
     + destruct (_ && _); [|discriminate]. inversion A; subst s'. reflexivity.
     + destruct (find_block s i b); [|discriminate]. destruct (_ && _); [|discriminate]. inversion A; subst s'. reflexivity.
@@ -531,6 +553,7 @@ Proof.
     + destruct (_ && _); [|discriminate]. inversion A; subst s'. reflexivity.
     + destruct (_ && _); [|discriminate]. inversion A; subst s'. reflexivity.
     + destruct (list_eqb _ _); inversion A; subst s'. reflexivity.
+    + inversion A; subst s'. destruct (corrupt_spec s p) as (D1 & _). unfold piece. rewrite D1. reflexivity.
 Qed.
 
 Theorem piece_length_run : forall tr s s' j, run s tr = Some s' -> length (piece s' j) = length (piece s j).
